@@ -39,11 +39,32 @@ pub fn enter_with(label: &'static str, value: u64) {
     });
 }
 
+thread_local! {
+    static OBSERVER: RefCell<Option<Hook>> = const { RefCell::new(None) };
+}
+
+/// Installs (or removes) the observer of the calling thread: it is told the value every
+/// wrapped atomic operation returned (or stored), right after the operation. It never yields.
+pub fn set_observer(observer: Option<Hook>) {
+    OBSERVER.with(|h| *h.borrow_mut() = observer);
+}
+
+#[inline]
+fn observe(label: &'static str, value: u64) {
+    OBSERVER.with(|h| {
+        if let Ok(mut h) = h.try_borrow_mut() {
+            if let Some(h) = h.as_mut() {
+                h(label, value)
+            }
+        }
+    });
+}
+
 /// Drop-in replacements of the std atomics used by `ConcurrentNodeIds`.
 pub mod atomic {
     pub use std::sync::atomic::Ordering;
 
-    use super::enter;
+    use super::{enter, observe};
 
     macro_rules! int_atomic {
         ($name:ident, $std:ty, $prim:ty) => {
@@ -62,31 +83,44 @@ pub mod atomic {
                 }
                 pub fn load(&self, o: Ordering) -> $prim {
                     enter(concat!(stringify!($name), "::load"));
-                    self.0.load(o)
+                    let r = self.0.load(o);
+                    observe(concat!(stringify!($name), "::load"), r as u64);
+                    r
                 }
                 pub fn store(&self, v: $prim, o: Ordering) {
                     enter(concat!(stringify!($name), "::store"));
-                    self.0.store(v, o)
+                    self.0.store(v, o);
+                    observe(concat!(stringify!($name), "::store"), v as u64)
                 }
                 pub fn swap(&self, v: $prim, o: Ordering) -> $prim {
                     enter(concat!(stringify!($name), "::swap"));
-                    self.0.swap(v, o)
+                    let r = self.0.swap(v, o);
+                    observe(concat!(stringify!($name), "::swap"), r as u64);
+                    r
                 }
                 pub fn fetch_add(&self, v: $prim, o: Ordering) -> $prim {
                     enter(concat!(stringify!($name), "::fetch_add"));
-                    self.0.fetch_add(v, o)
+                    let r = self.0.fetch_add(v, o);
+                    observe(concat!(stringify!($name), "::fetch_add"), r as u64);
+                    r
                 }
                 pub fn fetch_sub(&self, v: $prim, o: Ordering) -> $prim {
                     enter(concat!(stringify!($name), "::fetch_sub"));
-                    self.0.fetch_sub(v, o)
+                    let r = self.0.fetch_sub(v, o);
+                    observe(concat!(stringify!($name), "::fetch_sub"), r as u64);
+                    r
                 }
                 pub fn fetch_max(&self, v: $prim, o: Ordering) -> $prim {
                     enter(concat!(stringify!($name), "::fetch_max"));
-                    self.0.fetch_max(v, o)
+                    let r = self.0.fetch_max(v, o);
+                    observe(concat!(stringify!($name), "::fetch_max"), r as u64);
+                    r
                 }
                 pub fn fetch_min(&self, v: $prim, o: Ordering) -> $prim {
                     enter(concat!(stringify!($name), "::fetch_min"));
-                    self.0.fetch_min(v, o)
+                    let r = self.0.fetch_min(v, o);
+                    observe(concat!(stringify!($name), "::fetch_min"), r as u64);
+                    r
                 }
                 pub fn compare_exchange(
                     &self,
@@ -96,7 +130,12 @@ pub mod atomic {
                     f: Ordering,
                 ) -> Result<$prim, $prim> {
                     enter(concat!(stringify!($name), "::compare_exchange"));
-                    self.0.compare_exchange(c, n, s, f)
+                    let r = self.0.compare_exchange(c, n, s, f);
+                    observe(concat!(stringify!($name), "::compare_exchange"), match r {
+                        Ok(x) => x as u64,
+                        Err(x) => (x as u64) ^ (1 << 63),
+                    });
+                    r
                 }
                 pub fn compare_exchange_weak(
                     &self,
@@ -107,7 +146,12 @@ pub mod atomic {
                 ) -> Result<$prim, $prim> {
                     // never fails spuriously here: the explored schedules are the strong ones
                     enter(concat!(stringify!($name), "::compare_exchange_weak"));
-                    self.0.compare_exchange(c, n, s, f)
+                    let r = self.0.compare_exchange(c, n, s, f);
+                    observe(concat!(stringify!($name), "::compare_exchange_weak"), match r {
+                        Ok(x) => x as u64,
+                        Err(x) => (x as u64) ^ (1 << 63),
+                    });
+                    r
                 }
                 pub fn fetch_update<F: FnMut($prim) -> Option<$prim>>(
                     &self,
@@ -147,23 +191,32 @@ pub mod atomic {
         }
         pub fn load(&self, o: Ordering) -> bool {
             enter("AtomicBool::load");
-            self.0.load(o)
+            let r = self.0.load(o);
+            observe("AtomicBool::load", r as u64);
+            r
         }
         pub fn store(&self, v: bool, o: Ordering) {
             enter("AtomicBool::store");
-            self.0.store(v, o)
+            self.0.store(v, o);
+            observe("AtomicBool::store", v as u64)
         }
         pub fn swap(&self, v: bool, o: Ordering) -> bool {
             enter("AtomicBool::swap");
-            self.0.swap(v, o)
+            let r = self.0.swap(v, o);
+            observe("AtomicBool::swap", r as u64);
+            r
         }
         pub fn fetch_and(&self, v: bool, o: Ordering) -> bool {
             enter("AtomicBool::fetch_and");
-            self.0.fetch_and(v, o)
+            let r = self.0.fetch_and(v, o);
+            observe("AtomicBool::fetch_and", r as u64);
+            r
         }
         pub fn fetch_or(&self, v: bool, o: Ordering) -> bool {
             enter("AtomicBool::fetch_or");
-            self.0.fetch_or(v, o)
+            let r = self.0.fetch_or(v, o);
+            observe("AtomicBool::fetch_or", r as u64);
+            r
         }
         pub fn compare_exchange(
             &self,
@@ -173,7 +226,12 @@ pub mod atomic {
             f: Ordering,
         ) -> Result<bool, bool> {
             enter("AtomicBool::compare_exchange");
-            self.0.compare_exchange(c, n, s, f)
+            let r = self.0.compare_exchange(c, n, s, f);
+            observe("AtomicBool::compare_exchange", match r {
+                Ok(x) => x as u64,
+                Err(x) => (x as u64) ^ (1 << 63),
+            });
+            r
         }
         pub fn compare_exchange_weak(
             &self,
@@ -183,7 +241,12 @@ pub mod atomic {
             f: Ordering,
         ) -> Result<bool, bool> {
             enter("AtomicBool::compare_exchange_weak");
-            self.0.compare_exchange(c, n, s, f)
+            let r = self.0.compare_exchange(c, n, s, f);
+            observe("AtomicBool::compare_exchange_weak", match r {
+                Ok(x) => x as u64,
+                Err(x) => (x as u64) ^ (1 << 63),
+            });
+            r
         }
     }
 }
